@@ -87,6 +87,22 @@ def run_case(case, ctx):
                     fail('file stored in %s (%r), distance %s: value %r at %r micron read as %r %s, F=nu*F_nu / L=F*d^2 give %r' % (
                         A, case['spelling'], 'absent (1 kpc)' if case['distance_kpc'] is None else '%r kpc' % case['distance_kpc'],
                         case['flux'][a][p], wav[p], got[a][p], B, want), 'c15:read_conversion')
+        # a second file on the same frequency grid but at another distance, read right after the first
+        d2cm = dcm * 3.
+        path2 = os.path.join(d, 'y_sed.fits')
+        pkgio.write_sed_file(path2, 'y', swav, pkgio.wav_to_nu(swav), case['apertures'],
+                             [[row[i] for i in idx] for row in case['flux']], [[row[i] for i in idx] for row in err],
+                             flux_unit=case['spelling'], distance_cm=d2cm,
+                             wav_unit='MICRONS' if legacy else 'um', nu_unit='HZ' if legacy else 'Hz')
+        with must_succeed('SED.read of a second file'):
+            s2 = SED.read(path2, unit_flux=U(B), order='wav')
+        got2 = np.asarray(s2.flux.to(U(B)).value)
+        for a in range(nap):
+            for p in range(nw):
+                want = om.convert_flux_ref(case['flux'][a][p], om.C_UM_HZ / wav[p], A, B, d2cm)
+                if abs(got2[a][p] - want) > 1e-12 * abs(want):
+                    fail('a second file (same frequencies, distance %r cm instead of %r cm) stored in %s read as %s gives %r, '
+                         'F=nu*F_nu / L=F*d^2 with ITS distance give %r' % (d2cm, dcm, A, B, got2[a][p], want), 'c15:distance_of_other_file')
         # refused targets
         bad = case['bad_target']
         try:
